@@ -9,8 +9,8 @@
   * `serverPage` is one ListObjectsV2 answer: the keys strictly after the continuation token, at
     most `k` of them, and a token (the last key returned) iff more keys remain.
   * `clientPage` is s3backend.Client.List's callback loop: it keeps requesting server pages (the
-    server may answer with fewer keys than asked for: `cap`) until it has at least `maxKeys` names
-    or the server has no more pages.
+    server may answer with fewer keys than asked for: `cap`), keeps the keys that convert back to
+    a name, until it has at least `maxKeys` names (paginated) or the server has no more pages.
   * `listAll` follows the continuation tokens from the start until there is none.
 -/
 namespace KrakenModel.BackendSpec
@@ -81,29 +81,36 @@ def serverPage (lt : Name → Name → Bool) (ks : List Name) (k : Nat) (tok : O
   let pg := rest.take k
   (pg, if k < rest.length then pg.getLast? else none)
 
-/-- s3backend.Client.List: accumulate server pages until `maxKeys` names or no further page.
-`fuel` bounds the number of server pages. -/
-def clientPage (lt : Name → Name → Bool) (ks : List Name) (maxKeys cap : Nat) :
-    Nat → Option Name → List Name → List Name × Option Name
+/-- s3backend.Client.List's page callback loop.  The server is asked for pages of `pageSize` keys
+(it may answer with fewer: `cap`); the keys of a page that convert back to a name (`conv`; the
+others — foreign objects under the prefix, nil keys — are skipped but were counted by the server)
+are appended; with `limit = some n` (a paginated List, n = MaxKeys = pageSize) the loop stops as
+soon as `n` names are collected and hands the server's continuation token back, with
+`limit = none` (a List without pagination) it reads every page.  `fuel` bounds the server pages. -/
+def clientPage (lt : Name → Name → Bool) (conv : Name → Bool) (ks : List Name) (pageSize cap : Nat)
+    (limit : Option Nat) : Nat → Option Name → List Name → List Name × Option Name
   | 0, tok, acc => (acc, tok)
   | fuel + 1, tok, acc =>
-    let (pg, next) := serverPage lt ks (min maxKeys cap) tok
-    let acc' := acc ++ pg
-    if acc'.length < maxKeys then
+    let (pg, next) := serverPage lt ks (min pageSize cap) tok
+    let acc' := acc ++ pg.filter conv
+    let more := match limit with
+      | none => true
+      | some n => decide (acc'.length < n)
+    if more then
       match next with
       | none => (acc', none)                 -- no more pages: the token stays empty
-      | some t => clientPage lt ks maxKeys cap fuel (some t) acc'
+      | some t => clientPage lt conv ks pageSize cap limit fuel (some t) acc'
     else (acc', next)
 
 /-- follow the continuation tokens: the pages a caller of the paginated List receives -/
-def listAll (lt : Name → Name → Bool) (ks : List Name) (maxKeys cap : Nat) :
+def listAll (lt : Name → Name → Bool) (conv : Name → Bool) (ks : List Name) (maxKeys cap : Nat) :
     Nat → Option Name → List (List Name)
   | 0, _ => []
   | fuel + 1, tok =>
-    let (pg, next) := clientPage lt ks maxKeys cap (ks.length + 1) tok []
+    let (pg, next) := clientPage lt conv ks maxKeys cap (some maxKeys) (ks.length + 1) tok []
     match next with
     | none => [pg]
-    | some t => pg :: listAll lt ks maxKeys cap fuel (some t)
+    | some t => pg :: listAll lt conv ks maxKeys cap fuel (some t)
 
 end
 
